@@ -176,7 +176,7 @@ def _line(it, k):
     raise ValueError(it)
 
 
-def make(sid, items, endian, consts, width=48, embedded=False, term=False):
+def make(sid, items, endian, consts, width=48, embedded=False, term=False, upper=False):
     general = {}
     if embedded:
         general['allow_embedded_strings'] = True
@@ -187,6 +187,10 @@ def make(sid, items, endian, consts, width=48, embedded=False, term=False):
     cs.update(consts)
     add_constants(cfg, cs)
     src = ['.org v0', 'pre: .byte 17'] + [_line(it, k) for k, it in enumerate(items)] + ['tail: .byte 238']
+    if upper:
+        # directive names are matched without regard to case
+        import re as _re
+        src = [_re.sub(r'^(L\d+: )(\.\w+)', lambda m: m.group(1) + m.group(2).upper(), ln) for ln in src]
     # the image has no gap, so the fill option (any value) must not show anywhere in it
     return DataShape(sid, config=cfg, files={'main.asm': '\n'.join(src) + '\n'}, start=Sym('v0', 0, 0xF000),
                      fill=Sym('wf', -300, 300), items=items, endian=endian, width=width)
@@ -268,6 +272,14 @@ def shapes(tier, seed):
             continue
         d, q = (('.cstr', '"'), ('.byte', "'"), ('.asciiz', '"'))[i % 3]
         out.append(make(f'strdef:{d}:{i}', [('str', d, q, raw, exp, d != '.byte', 'define')], 'big', {}, term=True))
+    # directive names in upper case
+    out.append(make('upper:data', [('data', '.byte', [V('v1'), ('c', 7)]), ('data', '.2byte', [('lbl', 'tail'), V('v1')]),
+                                   ('data', '.4byte', [V('v1')])], 'little', {'v1': (-(1 << 20), 1 << 20)}, upper=True))
+    out.append(make('upper:8byte', [('data', '.8byte', [V('v1')])], 'big', {'v1': (-(1 << 40), 1 << 40)}, width=96, upper=True))
+    out.append(make('upper:strings', [('str', '.cstr', '"', 'abc', [97, 98, 99], True), ('str', '.asciiz', "'", 'x', [120], True),
+                                      ('str', '.byte', '"', 'a\\nb', [97, 10, 98], False)], 'big', {}, term=True, upper=True))
+    out.append(make('upper:fills', [('fill', V('n'), V('v1')), ('zero', V('n')), ('zerountil', ('+', V('v0'), ('c', 40)))], 'big',
+                    {'n': (0, 3), 'v1': (-300, 300)}, upper=True))
     for i, (raw, exp) in enumerate(STRINGS_DQ_ONLY):
         out.append(make(f'strdq:{i}', [('str', '.cstr', '"', raw, exp, True)], 'big', {}, term=True))
         out.append(make(f'strdq:emb:{i}', [('str', None, '"', raw, exp, True)], 'big', {}, embedded=True, term=True))
